@@ -16,7 +16,7 @@ MODELLED = (
     "arrays of equal length >= 1 (as PeakStats.compute builds them); NaN/inf inputs, the derivative statistics "
     "(calc_derivative_and_stats) and document handling beyond x/y extraction are not modelled.")
 RULE = (
-    "exhaustive small scope: every y in {-1,0,1,2}^n for n=1..4 (quick) / {-1,0,1,2}^n n<=5 (thorough) on increasing and "
+    "exhaustive small scope: every y in {-1,0,1,2}^n for n=1..3 and {0,1,2}^4 (quick) / {-1,0,1,2}^n n<=5 (thorough) on increasing and "
     "decreasing integer x, with edge_count None and every 1..n-1; random: lengths 1..40 (some 100..400 to reach the >128 "
     "pairwise split), x strictly increasing or decreasing (uniform steps or random floats), y = noisy peaks / small "
     "integers with ties / flat / all-zero / negative / mixed-sign, edge_count None or 1..n-1; a fraction through the full "
@@ -65,7 +65,8 @@ def cases(rng, tier):
     out = []
     nmax = 4 if tier == "quick" else 5
     for n in range(1, nmax + 1):
-        for ys in itertools.product([-1.0, 0.0, 1.0, 2.0], repeat=n):
+        alphabet = [0.0, 1.0, 2.0] if (tier == "quick" and n == 4) else [-1.0, 0.0, 1.0, 2.0]
+        for ys in itertools.product(alphabet, repeat=n):
             for dec in (False, True):
                 if dec and (n == 1 or tier == "quick" and n == 4):
                     continue
@@ -74,7 +75,7 @@ def cases(rng, tier):
                     x = [3.0 - v for v in x]
                 for ec in [None] + list(range(1, n)):
                     out.append(_mk(x, ys, ec))
-    nrand = 350 if tier == "quick" else 8000
+    nrand = 300 if tier == "quick" else 8000
     for it in range(nrand):
         n = rng.randint(1, 40) if it % 12 else rng.randint(100, 400)
         mode = rng.randint(0, 5)
